@@ -385,7 +385,13 @@ def rebalance_over_time(chk, pid):
                 lp.iter = v[3]
                 e.loops = (lp,)
                 stores.append(e)
-    chk.need(stores, "%s no longer builds the step targets" % host)
+    if not stores:
+        # the function is there but the per-name step targets (current + (final - current) / periods left, computed from state the algo itself keeps) are not
+        # built in it: reported as a violation of the property (the check cannot see the steps), not as a fault of the analysis
+        chk.ob("C06.R7", False, ALGOS, host, "step-targets", "RebalanceOverTime sets, for every name of the stored targets, current + (final - current) / periods left as "
+               "the weight to rebalance to", where=chk.prog.func(ALGOS, "RebalanceOverTime", "__call__").where, expected="tgt[name] = curr + (final - curr) / days_left, built from the algo's own state",
+               found="no such per-name target found in __call__ (state kept in another object?)")
+        return
     e = stores[-1]
     cname = e.index
     # state at the store: _weights and _days_left may have just been re-armed
